@@ -11,6 +11,7 @@ import (
 	"math/big"
 	"sort"
 	"strings"
+	gotime "time"
 
 	ledger "github.com/formancehq/ledger/internal"
 )
@@ -351,6 +352,8 @@ type replayTx struct {
 	ts       string
 	ref      string
 	reverted bool
+	// revertedAt: the date the REVERTED_TRANSACTION log records for the revert (nil when the payload has none)
+	revertedAt *gotime.Time
 }
 
 func addVol(vols map[string][2]*big.Int, account, asset string, in, out *big.Int) {
@@ -402,6 +405,10 @@ func ReplayLogs(v *LedgerView) (*replayState, error) {
 		case ledger.RevertedTransaction:
 			if t := st.txs[*pl.RevertedTransaction.ID]; t != nil {
 				t.reverted = true
+				if ra := pl.RevertedTransaction.RevertedAt; ra != nil && !ra.IsZero() {
+					at := ra.Time
+					t.revertedAt = &at
+				}
 			} else {
 				return nil, fmt.Errorf("log %d reverts unknown transaction %d", r.ID, *pl.RevertedTransaction.ID)
 			}
@@ -483,6 +490,9 @@ func CheckReplay(prop string, views map[string]*LedgerView, withDefaults bool) [
 			}
 			if !metaEq(rt.metadata, t.Metadata) {
 				vs = append(vs, Violation{prop, "replay-equals-state", fmt.Sprintf("ledger %s tx %d: stored metadata %v, replayed %v", name, id, t.Metadata, rt.metadata)})
+			}
+			if rt.reverted && t.RevertedAt != nil && rt.revertedAt != nil && !rt.revertedAt.Equal(t.RevertedAt.Time) {
+				vs = append(vs, Violation{prop, "replay-equals-state", fmt.Sprintf("ledger %s tx %d: stored as reverted at %s, the log that reverts it says %s", name, id, t.RevertedAt.Time.UTC().Format(gotime.RFC3339Nano), rt.revertedAt.UTC().Format(gotime.RFC3339Nano))})
 			}
 			if rt.reverted != (t.RevertedAt != nil) {
 				vs = append(vs, Violation{prop, "replay-equals-state", fmt.Sprintf("ledger %s tx %d: stored reverted=%v, replayed %v", name, id, t.RevertedAt != nil, rt.reverted)})
